@@ -458,6 +458,43 @@ def run(ctx):
 
     drive.for_each_case(ctx, 'main', ctx.budget, body)
 
+    # the same union members in two orders inside wrappers that compare equal (PEP 585 generics, type literals), both used in
+    # one process: each tree lists ITS members in ITS order
+    def body_twins(i, rng, ty_unused, T_unused):
+        names = rng.sample(('int', 'str', 'float', 'bool', 'none', 'bytes', 'date', 'fraction'), rng.choice((2, 3)))
+        orders = [names, list(reversed(names))]
+        rng.shuffle(orders)
+        w = rng.choice(('list', 'dict', 'tup', 'struct'))
+        for ms in orders:
+            u = Ty('union', [Ty(n) for n in ms])
+            ty = {'list': Ty('list', [u]), 'dict': Ty('dict', [Ty('str'), u], res='dict'), 'tup': Ty('tup', [u, Ty('int')]),
+                  'struct': Ty('struct', [u], keys=('alpha',))}[w]
+            T = build(ty, None, uncached=True)
+            from ..tyast import conforms
+            if not conforms(ty, T):
+                ctx.count('type_build_failed')
+                continue
+            bad = rng.choice(([1, 2], {'k': 1}, 2 + 3j, ('x',)))
+            v = {'list': [bad], 'dict': {'k': bad}, 'tup': [bad, 0], 'struct': {'alpha': bad}}[w]
+            out = observe(env.from_data, v, T)
+            if out.kind != 'converr':
+                ctx.count('not_rejected')
+                continue
+            ctx.count('trees_checked')
+            ctx.count('twin_trees_checked')
+            try:
+                check(ctx, ty, v, out.exc.tree)
+            except Skip:
+                ctx.count('skipped_unspecified')
+            except Mismatch as m:
+                ctx.violation('tree-mirrors-type', 'twins', i,
+                              {'type': describe(ty), 'both_orders_in_this_process': [list(o) for o in orders], 'value': short(v, 200), 'rule': m.rule, 'why': m.why,
+                               'tree': short(out.exc.tree, 500)}, mech='reordered-twin:' + m.rule)
+                return
+
+    from ..tyast import build
+    drive.for_each_case(ctx, 'twins', max(40, ctx.budget // 5), body_twins, gen=lambda c, r: Ty('int'))
+
 
     def body_dc(i, rng, ty, T):
         for j in range(4):
